@@ -9,6 +9,9 @@ import Driver.Plug.SmallBuf
 import Driver.Plug.ResPool
 import Driver.Plug.TimedTask
 import Driver.Plug.Nested
+import Driver.Plug.Future
+import Driver.Plug.FutChain
+import Driver.Plug.WhenComb
 /-! The list of plug-in models (one import and one entry per model). -/
 namespace Driver
 
@@ -22,7 +25,12 @@ def plugins : List (String × Plug) := [
   ("smallbuf", Driver.PlugSmallBuf.plug),
   ("respool", Driver.PlugResPool.plug),
   ("timedtask", Driver.PlugTimedTask.plug),
-  ("nested", Driver.PlugNested.plug)
+  ("nested", Driver.PlugNested.plug),
+  ("future", Driver.PlugFuture.plug),
+  ("futchain", Driver.PlugFutChain.plug),
+  ("futevt", Driver.PlugFuture.plugEvt),
+  ("whenall", Driver.PlugWhenComb.plugAll),
+  ("whenany", Driver.PlugWhenComb.plugAny)
 ]
 
 end Driver
